@@ -611,7 +611,7 @@ pub fn run(ctx: &Ctx) -> (Report, PropertyMeta) {
     report.merge(r);
 
     // (b) random messages
-    let n = t.pick(400, 20_000);
+    let n = t.pick(3000, 60_000);
     let max_exp = t.pick(22, 24);
     let max_total = t.pick(6 << 20, 40 << 20);
     let r = run_random(ctx, "msg", n, 4..=40, |s| gen_msg(s, 8, max_exp, max_total), msg_outcome);
@@ -634,7 +634,7 @@ pub fn run(ctx: &Ctx) -> (Report, PropertyMeta) {
     report.merge(r);
 
     // bare encoder: READY with arbitrary properties, greeting variants
-    let n = t.pick(600, 20_000);
+    let n = t.pick(20_000, 400_000);
     let r = run_random(ctx, "command", n, 2..=24, gen_cmd, cmd_outcome);
     report.sections.push(json!({"part": "c2: READY through the bare encoder, body sizes around 255/256 and 64 KiB", "cases": n}));
     report.merge(r);
@@ -654,7 +654,7 @@ pub fn run(ctx: &Ctx) -> (Report, PropertyMeta) {
     report.merge(r);
 
     // (d) messages through real sockets (send().await and the PUB try_send path)
-    let n = t.pick(240, 6000);
+    let n = t.pick(2400, 40_000);
     let max_exp_s = t.pick(18, 21);
     let r = run_random(
         ctx,
